@@ -31,7 +31,9 @@ def _canon_body(f):
     for n in [n for n, t in f.args if t.kind == "simple"][:1]:
         roles[n] = "N"
     out = []
-    for st in f.body:
+    from .loopir import inline_element_locals, normalise_scans
+    fbody = normalise_scans(inline_element_locals(f.body))
+    for st in fbody:
         r = dict(roles)
         if st.k == "for" and st.a[0].k == "name":
             r[st.a[0].a[0]] = "i"
@@ -255,9 +257,21 @@ def v2(run: Run, prog: Program):
         m = vg.methods.get(mname)
         if m is None:
             raise AnalysisError(f"VisibilityGraph.{mname} vanished")
-        part = _row_part(m)
+        # a shared private helper selected by a constant flag is analysed as the
+        # statements it stands for under that constant
+        import copy
+        from .idioms import inline_simple_helpers, fold_constants
+
+        def resolve(hn, _c=vg):
+            h = prog.lookup(_c, hn)
+            return h.node if h is not None and hn.startswith("_") else None
+        m2 = copy.copy(m)
+        m2.node = fold_constants(inline_simple_helpers(m.node, resolve), {})
+        part = _row_part(m2)
         if part is None:
-            raise AnalysisError(f"{m.where}: row selection not recognised in {mname}")
+            run.unknowns.append(f"V2: {m.where}: row selection of {mname} not "
+                                f"recognised; partition of the row not decided")
+            return
         sl[mname] = (part, m)
     (r, rm), (a, am) = sl["retarded_degree"], sl["advanced_degree"]
     if r[0] == "slice" and a[0] == "slice":
@@ -291,7 +305,8 @@ def v3(run: Run, cy: CyProgram):
         f = cy.func(TS, kname)
         if f is None:
             raise AnalysisError(f"{kname} vanished")
-        body = canon_loopvars(f.body)
+        from .loopir import inline_value_helpers
+        body = canon_loopvars(inline_value_helpers(f))
         nums = set(quotient_numerators(body))
         sites = [s for s in count_sites(body) if s.counter in nums]
         if len(sites) != 1:
@@ -307,12 +322,41 @@ def v3(run: Run, cy: CyProgram):
             run.add("V3", f"{kname}/triangle", f"{f.module.relpath}:{s.line}",
                     f"{kname} counts triangles testing only the links {pairs}")
         loops = {v: pp(it).replace(" ", "") for v, it in s.loops}
-        if dom == "past":
-            okd = loops.get("j") == "range(i)" and loops.get("k") == "range(j)"
-        else:
-            okd = loops.get("j") in (f"range((i+1),{size})", f"range(i+1,{size})",
-                                     f"range((1+i),{size})") and \
-                loops.get("k") in ("range((i+1),j)", "range(i+1,j)", "range((1+i),j)")
+        # the pairs lo <= k < j < hi with (lo, hi) = (0, i) in the past and
+        # (i+1, N) in the future of i; range bounds are compared as linear
+        # forms, and j may start at lo or lo + 1 (k has no value for j = lo)
+        itx = dict(s.loops)
+
+        def lin(e):
+            if e is None:
+                return None
+            if e.k == "num":
+                return {"": e.a[0]} if e.a[0] != 0 else {}
+            if e.k == "name":
+                return {e.a[0]: 1}
+            if e.k == "bin" and e.a[0] in "+-":
+                l, r = lin(e.a[1]), lin(e.a[2])
+                if l is None or r is None:
+                    return None
+                out = dict(l)
+                for k_, v_ in r.items():
+                    out[k_] = out.get(k_, 0) + (v_ if e.a[0] == "+" else -v_)
+                return {k_: v_ for k_, v_ in out.items() if v_ != 0}
+            return None
+
+        def bounds(it):
+            if it is None or it.k != "call" or pp(it.a[0]) != "range" or \
+                    len(it.a[1]) not in (1, 2):
+                return None, None
+            if len(it.a[1]) == 1:
+                return {}, lin(it.a[1][0])
+            return lin(it.a[1][0]), lin(it.a[1][1])
+        lo, hi = ({}, {"i": 1}) if dom == "past" else ({"i": 1, "": 1}, {size: 1})
+        ja, jb = bounds(itx.get("j"))
+        ka, kb = bounds(itx.get("k"))
+        lo1 = dict(lo)
+        lo1[""] = lo1.get("", 0) + 1
+        okd = ja in (lo, lo1) and jb == hi and ka == lo and kb == {"j": 1}
         run.oblige("V3", f"{kname}:domain", okd, sample={"loops": loops})
         if not okd:
             run.add("V3", f"{kname}/domain", f"{f.module.relpath}:{s.line}",
